@@ -125,7 +125,16 @@ fn c14_encode_stack_no_operands() {
     let c = Content { operations: ops };
     let r = c.encode();
     match &r {
-        Ok(v) => assert!(v.len() == 3 && v[0] == b'q' && v[1] == b'\n' && v[2] == b'Q', "operations must be separated by one newline"),
+        Ok(v) => {
+            // operators must be separate tokens: at least one white-space byte between them, no other bytes
+            let n = v.len();
+            assert!(n >= 3 && v[0] == b'q' && v[n - 1] == b'Q', "operators missing or trailing bytes");
+            let mut i = 1;
+            while i < n - 1 {
+                assert!(is_ws(v[i]), "only white space may separate two operand-less operations");
+                i += 1;
+            }
+        }
         Err(_) => panic!("encode failed"),
     }
     kani::cover!(true);
